@@ -249,17 +249,33 @@ class GlobalModelRepository:
                 # print("LOADING {}".format(filename))
                 # all models loaded here get their references resolved from the
                 # root model
-                new_model = the_metamodel.internal_model_from_file(
-                    filename,
-                    pre_ref_resolution_callback=lambda other_model: (
-                        self.pre_ref_resolution_callback(  # noqa: E501
-                            other_model
-                        )
-                    ),
-                    is_main_model=is_main_model,
-                    encoding=encoding,
-                    model_params=model_params,
-                )
+                known_before = None
+                if is_main_model:
+                    # The file is loaded as a main model into this repository
+                    # (e.g. GlobalRepo.load_models_in_model_repo): remember
+                    # what the repository holds before this load.
+                    known_before = set(self.all_models.filename_to_model)
+                try:
+                    new_model = the_metamodel.internal_model_from_file(
+                        filename,
+                        pre_ref_resolution_callback=lambda other_model: (
+                            self.pre_ref_resolution_callback(  # noqa: E501
+                                other_model
+                            )
+                        ),
+                        is_main_model=is_main_model,
+                        encoding=encoding,
+                        model_params=model_params,
+                    )
+                except:  # noqa
+                    if known_before is not None:
+                        # The load failed (e.g. in a model processor, which runs
+                        # after the construction-time cleanup): models loaded by
+                        # it must not stay in this repository.
+                        all_models = self.all_models.filename_to_model
+                        for key in [k for k in all_models if k not in known_before]:
+                            del all_models[key]
+                    raise
                 self.all_models[filename] = new_model
             # print("ADDING {}".format(filename))
             if add_to_local_models:
